@@ -270,6 +270,8 @@ int SimulateTms9900::run(int max_cycles, int step)
 
   printf("Running... Press Ctl-C to break.\n");
 
+  stop_running = false;
+
   while (stop_running == false)
   {
     pc_current = pc;
